@@ -226,6 +226,11 @@ def worker(args):
                 session[0].close()
             except BaseException:
                 pass
+        os.makedirs(mount, exist_ok=True)
+        try:
+            os.chdir(mount)
+        except EnvironmentError:
+            pass
         for fn in os.listdir(mount):
             p = os.path.join(mount, fn)
             try:
@@ -363,6 +368,7 @@ def worker(args):
             elif kind == 'files':
                 data = soup_file(rng, corpus_programs)
                 name = rng.choice(['X.BAS', 'Y', 'Z.BAS'])
+                os.makedirs(mount, exist_ok=True)
                 with open(os.path.join(mount, name), 'wb') as f:
                     f.write(data)
                 stem = name.split('.')[0].encode()
